@@ -39,6 +39,12 @@ CHECKS["C07"] = dict(text="The sign-rewriting stage of expression evaluation (co
 CHECKS["C05"] = dict(text="The real lexer on every rune sequence up to length 2 (thorough 3) over ASCII and U+FFFD (symbolic tape): returns, delivers exactly one terminal token and delivers it last, token count linear, its producer goroutine finishes, no panic; the real CompileWarrior on every sequence of up to 2 (thorough 3) words of an 18-word token-soup vocabulary (for rof equ dat end labels numbers operators comma newline comment colon '=' '!' paren) with and without a final newline: returns within the derived loop bounds, error xor warrior, entry point inside the code, no goroutine parked (coroutine model of the unbuffered-channel producer/consumer pairs), no consumer blocked forever; FOR with a symbolic count 0..4 (and negated) emits the body exactly count times within count+c iterations; compile on every pair of EQU definitions of length <= 2 (thorough 3) over {x, y, +, 1} with and without an ;assert line: terminates (unwinding assertion on the substitution fix-point), cyclic definitions rejected.",
              note="Trusted: translator (witness replay incl. goroutine counts and time budgets), z3, the coroutine scheduling (one representative interleaving of producer and consumer; they share no memory on the Tokens() path). Wall-clock time and RSS are outside the technique; termination is decided as loop-bound (unwinding) assertions. Multi-byte UTF-8 letters and longer inputs are outside the bound.",
              ref="5/C05")
+CHECKS["C03"] = dict(text="Table kernels over their whole domains: the real default-modifier function equals an independently written ICWS'94 table on all 17x8x8 (op, amode, bmode), the real '88 validator accepts exactly the legal '88 combinations with the implied modifier; token level (real scanner, FOR pass loop, parser, compiler): a program with labels, forward and backward references, an EQU used before/between/after its definition, ORG / END label / bare END, ;name and ;author comments and symbolic operand literals assembles to the by-construction meaning for every combination of colon suffixes, labels on their own line, comment or blank filler lines, two label spellings and three letter cases; text level (real lexer included): the same program under both dialects with blanks/tabs, LF/CR-LF, trailing comments, spaced commas, with and without a final newline. Line-level denotation (defaults, lone operand, undefined spellings) is asserted by C06_line.",
+             note="Trusted: translator (witness replay), z3, go/types.Eval (real on concrete text; modelled and self-tested against the real function on symbolic literals), the tables of DESIGN.md appendix C (NOP defaults to .B: gmars' documented dialect). One program family of 3 instructions + 1 EQU; longer programs and multi-line EQU are outside.",
+             ref="5/C03")
+CHECKS["C08"] = dict(text="Token level through the real scan/expand pass loop, parser and compiler: a family of programs with a FOR block whose count is a symbolic value 0..2 (thorough 3) given as a literal, an EQU name or EQU+1, the counter used in both operand fields, an optional nested block with its own symbolic count, an optional second block in sequence, an optional block label referenced from after the block, optional preceding instruction - the FOR program, its manual unrolling (built by the harness) and the by-construction meaning assemble to the same code and entry point; 1, 3 and 12 single-iteration blocks in sequence assemble to one instruction each.",
+             note="Trusted: translator (witness replay), z3, Eval model (self-tested). Known finding (listed in known_findings.json, probed on every run): 13 or more blocks needing separate expansion passes are refused ('for loop depth exceeded'). Counts above 3, nesting depth 3, '&' concatenation and FOR inside EQU are outside the bound.",
+             ref="5/C08")
 CHECKS = dict(sorted(CHECKS.items()))
 
 NOT_YET = {
